@@ -40,8 +40,10 @@ template <class FilterT> class ContextFilter {
 
     template <class Output> void AddNGram(const StringPiece &ngram, const StringPiece &line, Output &output) {
       // Find beginning of string or last space.
-      const char *last_space;
-      for (last_space = ngram.data() + ngram.size() - 1; last_space > ngram.data() && *last_space != ' '; --last_space) {}
+      const char *last_space = ngram.data();
+      if (!ngram.empty()) {
+        for (last_space = ngram.data() + ngram.size() - 1; last_space > ngram.data() && *last_space != ' '; --last_space) {}
+      }
       backend_.AddNGram(StringPiece(ngram.data(), last_space - ngram.data()), line, output);
     }
 
